@@ -68,6 +68,9 @@ def program_cases(rng, n):
             else:
                 head = [".set base = 7", ".equ tgt = base + 1", "  .dw tgt"]
                 mid = [".set base = %d" % (at + 1 + d - 1)]
+                if rng.random() < 0.5:
+                    # symbol directives act in whatever segment they are written
+                    mid = [rng.choice([".dseg", ".eseg"])] + mid + [".cseg"]
             lines = head + (pre + mid + ["  %s tgt" % op] + body + ["  nop"] if d >= 0 else pre + body + mid + ["  %s tgt" % op])
             cases.append(("\n".join(lines) + "\n", at, word_of(op, d)))
             continue
